@@ -1,7 +1,7 @@
 """Rules over GlobalCollector::handle_commands and friends (C01, C03, C04, C06, C08, C18)."""
 import re
 
-from .core import (Prov, bool_cond_edges, callee_is, has_origin, inline_calls, origin_strs, result_switches, root_local, selection_blocks,
+from .core import (Prov, bool_cond_edges, callee_is, discr_cond_edges, has_origin, inline_calls, origin_strs, result_switches, root_local, selection_blocks,
                    sites_star)
 
 GC = "fastrace::collector::global_collector::GlobalCollector"
@@ -40,10 +40,23 @@ class Collector:
         self.roles = {}
         adt = facts.adts.get(GC)
         if adt:
-            for f in adt["variants"][0]["fields"]:
-                for role, rx in ROLE_TYPES:
-                    if re.search(rx, f["ty"]):
-                        self.roles[role] = f["name"]
+            # fields are located by type; a private struct that merely groups some of them (`pending: PendingCommands`)
+            # is looked into (two levels)
+            self.groups = {}
+
+            def scan(a, depth, group=None):
+                for f in a["variants"][0]["fields"]:
+                    hit = False
+                    for role, rx in ROLE_TYPES:
+                        if re.search(rx, f["ty"]) and role not in self.roles:
+                            self.roles[role] = f["name"]
+                            if group:
+                                self.groups[role] = group
+                            hit = True
+                    inner = facts.adts.get(f["ty"])
+                    if not hit and inner is not None and depth > 0 and len(inner["variants"]) == 1 and f["ty"].startswith("fastrace::"):
+                        scan(inner, depth - 1, f["name"])
+            scan(adt, 2)
 
     def ok(self):
         return self.fn is not None and all(r in self.roles for r, _ in ROLE_TYPES)
@@ -67,6 +80,18 @@ class Collector:
                 if suffix is None or tuple(o.path[-len(suffix):]) == tuple(suffix):
                     return True
         return False
+
+    def from_group(self, origins, role):
+        """The value is the private struct that groups the role's container with others (captured / passed whole)."""
+        g = getattr(self, "groups", {}).get(role)
+        if not g:
+            return False
+        return any(o.kind == "param" and o.key == 1 and o.path and o.path[-1] == "." + g for o in origins)
+
+    def reporter_absent_edges(self, fn):
+        """Edges taken when no reporter is installed: `reporter.is_none()` true, `is_some()` false, or the None arm of a
+        match / let-else on the reporter option (possibly behind as_mut()/as_ref())."""
+        return set(discr_cond_edges(fn, self.prov, r"Option<(&mut |&)?alloc::boxed::Box<\(?dyn fastrace::collector::global_collector::Reporter", ["None"]))
 
     def cancelable_edges(self, fn, want):
         def pred(o):
@@ -335,14 +360,7 @@ def rule_report(ctx, c, rule, what=("reached", "arg", "once")):
                if not fn.blocks[b]["cleanup"]]
     if not ctx.floor(rule, HC, len(reports), 1, "Reporter::report call sites"):
         return
-    def is_none(o):
-        return any(v[0] == "call" and re.search(r"Option::<T>::is_none$", v[1]) for v in o.via) and \
-            (o.kind == "param" and ("." + c.roles["reporter"]) in o.path)
-    none_true = bool_cond_edges(fn, c.prov, is_none, True)
-    def is_some(o):
-        return any(v[0] == "call" and re.search(r"Option::<T>::is_some$", v[1]) for v in o.via) and \
-            (o.kind == "param" and ("." + c.roles["reporter"]) in o.path)
-    none_true |= bool_cond_edges(fn, c.prov, is_some, False)
+    none_true = c.reporter_absent_edges(fn)
     if "reached" in what:
         ok, wit = fn.must_pass([0], reports, avoid_edges=none_true)
         ctx.check(ok, rule, HC, fn.loc(reports[0]),
@@ -458,7 +476,7 @@ def rule_scratch_emptied(ctx, c, rule):
                 b, cf, agg = rs
                 for i, n in enumerate(agg["fields"]):
                     src = c.prov.of_operand(fn, agg["ops"][i])
-                    if c.from_role(src, role):
+                    if c.from_role(src, role) or c.from_group(src, role):
                         starts = [fn.term(b)["target"]]
         if not starts:
             ctx.fail(rule, HC, fn.span, "the %s scratch vector is filled in handle_commands" % role,
@@ -487,10 +505,7 @@ def rule_other_containers_emptied(ctx, c, rule):
     extra = [f for f in adt["variants"][0]["fields"] if f["name"] not in known and
              re.search(r"^(alloc::vec::Vec|alloc::collections::\w+::\w+|std::collections::hash::(map::HashMap|set::HashSet))<", f["ty"])]
 
-    def is_none(o):
-        return any(v[0] == "call" and re.search(r"Option::<T>::is_none$", v[1]) for v in o.via) and \
-            (o.kind == "param" and ("." + c.roles["reporter"]) in o.path)
-    none_true = bool_cond_edges(fn, c.prov, is_none, True)
+    none_true = c.reporter_absent_edges(fn)
     for f in extra:
         name = f["name"]
         empt = [b for b in fn.calls_re(r"::(clear|drain)$|core::mem::take$", cleanup=False)
